@@ -53,6 +53,11 @@ func (e *Exec) builtin(fr *frame, st *State, b *ssa.Builtin, c *ssa.CallCommon, 
 		// delete on a nil map is a no-op
 		e.writeHeapCond(st, smt.Neq(m, NilAddr), hk, hs, m, smt.Store(has, k, smt.False), pos)
 		return smt.TupleOf()
+	case "close":
+		hs := smt.Array(AddrS, smt.Bool)
+		e.heapSort["GH|chanClosed"] = hs
+		e.writeHeap(st, smt.True, "GH|chanClosed", hs, args[0], nil, smt.True, pos)
+		return smt.TupleOf()
 	case "SliceData":
 		// unsafe.SliceData: the address of the first element of the backing array window
 		return Elm(SArr(args[0]), SOff(args[0]))
